@@ -125,3 +125,9 @@ PLANS['C07'] = {
     'run': api_runner({'quick': [('sync', 25, 40, 16)],
                        'thorough': [('sync', 300, 40, 16)]}),
 }
+
+PLANS['C17'] = {
+    'level': 'model_checking', 'tv_spec': 'TV_API',
+    'run': api_runner({'quick': [('copy', 20, 25, 16)],
+                       'thorough': [('copy', 250, 25, 16)]}),
+}
